@@ -2,7 +2,10 @@
 
 `regenerate_pyobject(sp, lean_dir)` is meant to be called from the `regenerate` hook of every property
 whose model rests on the hand-written `Obj.*` functions (C02 evaluate, C03 derivative, C04 insert_knot,
-C06 reverse / swap / reparam, C09 translate / scale / ..., C10 everything structural):
+C06 reverse / swap / reparam, C09 translate / scale / ..., C10 everything structural; t3b: C05 raise_order /
+raise_order_implicit / set_order / lower_order, C07 / C08 / C12 lower_periodic / make_periodic / split, C09 / C11 the
+operators `__iadd__ .. __div__`, scale with a sequence operand (`scale_p`), mirror, rotate, utils.rotation_matrix,
+C15 section / corners):
 
 1. the method bodies of `SplineObject`, the module functions `evaluate` / `transpose_fix` and
    `utils.check_direction` are re-translated from the overlay source
@@ -63,6 +66,34 @@ THEOREM = {
     'scale': ('scale', 'PyObject_scale_eq'),
     'project': ('project', 'PyObject_project_eq'),
     'derivative': ('derivative', 'PyObject_derivative_eq'),
+    # t3b
+    'lower_periodic': ('lower_periodic', 'PyObject_lower_periodic_eq'),
+    'order': ('order', 'PyObject_order_eq'),
+    'order_dir': ('order_dir', 'PyObject_order_dir_eq'),
+    'make_periodic': ('make_periodic', 'PyObject_make_periodic_eq'),
+    'make_periodic_c': ('make_periodic', 'PyObject_make_periodic_c_eq'),
+    'split': ('split', 'PyObject_split_eq'),
+    'raise_order_implicit': ('raise_order_implicit', 'PyObject_raise_order_implicit_eq'),
+    'raise_order': ('raise_order', 'PyObject_raise_order_eq'),
+    'raise_order_dir': ('raise_order_dir', 'PyObject_raise_order_dir_eq'),
+    'set_order': ('set_order', 'PyObject_set_order_eq'),
+    'lower_order': ('lower_order', 'PyObject_lower_order_eq'),
+    'scale_p': ('scale_p', 'PyObject_scale_p_eq'),
+    'rotation_matrix': ('rotation_matrix', 'PyObject_rotation_matrix_eq'),
+    'rotate': ('rotate', 'PyObject_rotate_eq'),
+    'mirror': ('mirror', 'PyObject_mirror_eq'),
+    '__iadd__': ('__iadd__', 'PyObject_iadd_eq'),
+    '__isub__': ('__isub__', 'PyObject_isub_eq'),
+    '__imul__': ('__imul__', 'PyObject_imul_eq'),
+    '__itruediv__': ('__itruediv__', 'PyObject_itruediv_eq'),
+    '__add__': ('__add__', 'PyObject_add_eq'),
+    '__radd__': ('__radd__', 'PyObject_radd_eq'),
+    '__sub__': ('__sub__', 'PyObject_sub_eq'),
+    '__mul__': ('__mul__', 'PyObject_mul_eq'),
+    '__rmul__': ('__rmul__', 'PyObject_rmul_eq'),
+    '__div__': ('__div__', 'PyObject_div_eq'),
+    'section': ('section', 'PyObject_section_eq'),
+    'corners': ('corners', 'PyObject_corners_eq'),
 }
 # guards of the theorems (repeated in the obligation detail); see the docstrings in PyObjectEq.lean
 GUARDS = {
@@ -93,6 +124,43 @@ GUARDS = {
                   'parameter lists in non-periodic directions: same MODEL/CODE GAP); d= and above= are lists (or absent) '
                   'that, after ensure_listlike(.., pardim), have at least pardim entries; all derivative orders >= 0; '
                   'equal to Obj.derivativeGeneric (generic SplineObject path only, not the Curve/Surface overrides)',
+    # t3b
+    'lower_periodic': 'one basis per parametric axis; equal to Obj.lowerPeriodic (b.roll(1) carries its broadcast '
+                      'ValueError guard, shown never to fire after a successful insert_knot)',
+    'order_dir': 'controlpoints has at least one axis; one basis per parametric axis',
+    'make_periodic': 'one basis per axis; pardim <= 3 (MODEL/CODE GAP: the constructor look-up raises IndexError for a '
+                     'SplineObject with more than three parametric directions, Obj.makePeriodic does not); '
+                     'len(cps.data) = prod(shape); ncomp >= 1',
+    'make_periodic_c': 'as make_periodic, continuity given as an int',
+    'split': 'one basis per axis; pardim <= 3 (same constructor gap); ncomp >= 1; a periodic basis has >= p+k+1 knots; '
+             'SplitGuard: in every piece loop the hand model runs, the split values are met in non-decreasing knot '
+             'position and no position lies beyond the control net (the model keeps positions in naturals with '
+             'truncated subtraction and unclamped slices, the code in Python ints with numpy clamping); b.roll(mu) '
+             'carries the broadcast ValueError guard that Obj.split states explicitly',
+    'raise_order_implicit': 'one basis per axis; at least one basis; all amounts >= 0 (b.raise_order raises ValueError '
+                            'otherwise, the model takes naturals); np.linalg.inv IDEALISED as Mat.invChecked',
+    'raise_order': 'one basis per axis; at least one basis; no basis with an empty knot array; direction omitted; the '
+                   'explicit raise_order_1D branch is PINNED (digest) and mapped to the model\'s Exception',
+    'raise_order_dir': 'as raise_order; direction given as an int',
+    'set_order': 'as raise_order; the receiver\'s class does not override raise_order (isCurve = false)',
+    'lower_order': 'one basis per axis; 1 <= pardim <= 3 (constructor gap); ncomp >= 1; one amount or one per '
+                   'direction (fewer: zip drops bases and the constructor gets the wrong number of arguments)',
+    'scale_p': 'as scale; the single operand may be a number or a sequence (Param): equal to Obj.scaleArgs',
+    'rotation_matrix': 'three-entry axis; cos/sin/sqrt are abstract inputs',
+    'rotate': 'operator guards (cps has an axis, dimension >= 1, len(data) = prod(shape), len(self) = number of control '
+              'points); three-entry normal; cos/sin/sqrt abstract, with the two double-angle identities '
+              'cos t = c^2 - s^2, sin t = 2cs (c, s = cos, sin of t/2) as hypotheses: the hand model takes c, s and the '
+              'normalised axis',
+    'mirror': 'operator guards; three-entry normal; sqrt abstract: the model takes normal / sqrt(normal . normal)',
+    '__iadd__': 'operator guards; equal to AffOp.inplace', '__isub__': 'operator guards; equal to AffOp.inplace',
+    '__imul__': 'operator guards; equal to AffOp.inplace', '__itruediv__': 'operator guards; 1.0 / x idealised as AffOp.recip',
+    '__add__': 'operator guards; copy.deepcopy is the identity on values', '__radd__': 'operator guards',
+    '__sub__': 'operator guards', '__mul__': 'operator guards', '__rmul__': 'operator guards',
+    '__div__': 'operator guards (__truediv__ is the same function object)',
+    'section': 'one basis per axis; ncomp >= 1; at most pardim positional selectors; compared on the content of the '
+               'result (the class of the returned object is not part of PyObj); utils.check_section PINNED',
+    'corners': 'one basis per axis; pardim <= 3; ncomp >= 1; len(cps.data) = prod(shape); the 2-d result read as the '
+               'model\'s tensor; utils.sections PINNED',
 }
 # theorems that are weaker than extensional equality (say so in the obligation)
 PARTIAL = {}
@@ -314,7 +382,9 @@ def _run(src, lean_dir):
     return r, failed, axioms, notes, ok
 
 
-MODEL_FILES = ('Splipy/Model/Tensor.lean', 'Splipy/Model/Object.lean', 'Splipy/Model/Reparam.lean',
+MODEL_FILES = ('Splipy/Model/Periodic.lean', 'Splipy/Model/Split.lean', 'Splipy/Model/Order.lean',
+               'Splipy/Model/Sections.lean', 'Splipy/Model/Identical.lean',
+               'Splipy/Model/Tensor.lean', 'Splipy/Model/Object.lean', 'Splipy/Model/Reparam.lean',
                'Splipy/Model/Refine.lean', 'Splipy/Model/WellFormed.lean', 'Splipy/Model/Basis.lean',
                'Splipy/Model/BasisOps.lean', 'Splipy/Model/LinAlg.lean', 'Splipy/Model/AffineOps.lean',
                'Splipy/Model/RationalDeriv.lean', 'Splipy/Lemmas/C06Tensor.lean', 'Splipy/Lemmas/TensorEval.lean')
@@ -468,9 +538,9 @@ MUTS = {
  'translate_column':   ('obj', "translation_matrix[i, -1] = x[i]", "translation_matrix[i, 0] = x[i]", ['translate']),
  'translate_no_T':     ('obj', "cp = cp @ translation_matrix.T  # right-mult", "cp = cp @ translation_matrix  # right-mult", ['translate']),
  'translate_store':    ('obj', "self.controlpoints = np.reshape(np.array(cp[:, :-1]), self.controlpoints.shape)", "self.controlpoints = np.reshape(np.array(cp), self.controlpoints.shape)", ['translate']),
- 'scale_dups':         ('obj', "s = ensure_listlike(s, dups=3)", "s = ensure_listlike(s, dups=2)", ['scale']),
- 'scale_diag':         ('obj', "scale_matrix[i, i] = s[i]", "scale_matrix[i, 0] = s[i]", ['scale']),
- 'scale_matrix_size':  ('obj', "scale_matrix = np.identity(dim + rat)", "scale_matrix = np.identity(dim + 1)", ['scale']),
+ 'scale_dups':         ('obj', "s = ensure_listlike(s, dups=3)", "s = ensure_listlike(s, dups=2)", ['scale', 'scale_p']),
+ 'scale_diag':         ('obj', "scale_matrix[i, i] = s[i]", "scale_matrix[i, 0] = s[i]", ['scale', 'scale_p']),
+ 'scale_matrix_size':  ('obj', "scale_matrix = np.identity(dim + rat)", "scale_matrix = np.identity(dim + 1)", ['scale', 'scale_p']),
  'project_keep':       ('obj', "            if not keep[i]:", "            if keep[i]:", ['project']),
  'project_letters':    ('obj', "keep = [c in plane.lower() for c in 'xyz']", "keep = [c in plane.lower() for c in 'xzy']", ['project']),
  'project_value':      ('obj', "self.controlpoints[..., i] = 0", "self.controlpoints[..., i] = 1", ['project']),
@@ -487,6 +557,70 @@ MUTS = {
  'whitespace_only':    ('obj', "        shape  = self.controlpoints.shape\n\n        # for single-value", "        shape = self.controlpoints.shape\n\n\n        # for single-value", []),
  'docstring_only':     ('obj', '"""  Swaps two parameter directions.', '"""  Swap two parameter directions (reworded).', []),
  'utils_comment_only': ('utils', '    """Wraps x in a list if it\'s not list-like."""', '    """Wrap x in a list unless it is list-like."""', []),
+ # ---- t3b
+ 'order_all_plus':     ('obj', "return tuple(b.order for b in self.bases)", "return tuple(b.order + 1 for b in self.bases)", ['order']),
+ 'order_all_attr':     ('obj', "return tuple(b.order for b in self.bases)", "return tuple(b.periodic for b in self.bases)", ['order']),
+ 'order_dir_minus':    ('obj', "return self.bases[direction].order", "return self.bases[direction].order - 1", ['order_dir']),
+ 'order_dir_index':    ('obj', "return self.bases[direction].order", "return self.bases[direction - 1].order", ['order_dir']),
+ 'lowper_loop_test':   ('obj', "while periodic < b.periodic:", "while periodic <= b.periodic:", ['lower_periodic']),
+ 'lowper_roll_sign':   ('obj', "self.controlpoints = np.roll(self.controlpoints, -1, direction)", "self.controlpoints = np.roll(self.controlpoints, 1, direction)", ['lower_periodic']),
+ 'lowper_step':        ('obj', "b.periodic -= 1", "b.periodic -= 2", ['lower_periodic']),
+ 'mkper_default':      ('obj', "continuity = basis.order - 2\n        if not -1", "continuity = basis.order - 1\n        if not -1", ['make_periodic']),
+ 'mkper_minus_one':    ('obj', "        if continuity == -1:\n", "        if continuity == 0:\n", ['make_periodic', 'make_periodic_c']),
+ 'mkper_weight':       ('obj', "if continuity > 0 else [0.5]", "if continuity > 0 else [0.25]", ['make_periodic', 'make_periodic_c']),
+ 'mkper_average':      ('obj', "cps[tuple(index_beg)] = t * cps[tuple(index_beg)] + (1 - t) * cps[tuple(index_end)]", "cps[tuple(index_beg)] = (1 - t) * cps[tuple(index_beg)] + t * cps[tuple(index_end)]", ['make_periodic', 'make_periodic_c']),
+ 'split_inf_cont':     ('obj', "                continuity = p - 1\n", "                continuity = p - 2\n", ['split']),
+ 'split_ghost_knots':  ('obj', "b.knots = b.knots[:-b.periodic-1]", "b.knots = b.knots[:-b.periodic]", ['split']),
+ 'split_knot_slice':   ('obj', "slice(last_knot_i, mu+p, None)", "slice(last_knot_i, mu+p-1, None)", ['split']),
+ 'split_filter':       ('obj', "if self.start(direction) < k < self.end(direction): # skip", "if self.start(direction) <= k < self.end(direction): # skip", ['split']),
+ 'roi_order':          ('obj', "for n in N_old[::-1]:\n            result = np.tensordot", "for n in N_old:\n            result = np.tensordot", ['raise_order_implicit']),
+ 'roi_no_inverse':     ('obj', "result = np.tensordot(np.linalg.inv(n), result, axes=(1, self.pardim-1))", "result = np.tensordot(n, result, axes=(1, self.pardim-1))", ['raise_order_implicit']),
+ 'roi_axis':           ('obj', "result = np.tensordot(n, result, axes=(1, self.pardim-1))", "result = np.tensordot(n, result, axes=(1, 0))", ['raise_order_implicit']),
+ 'ro_negative_test':   ('obj', "if not all(r >= 0 for r in raises):", "if not all(r > 0 for r in raises):", ['raise_order', 'raise_order_dir']),
+ 'ro_uniform':         ('obj', "raises = [raises[0]] * self.pardim\n        elif len(raises) == 1:", "raises = [raises[0]] * (self.pardim + 1)\n        elif len(raises) == 1:", ['raise_order']),
+ 'ro_dir_fill':        ('obj', "newraises = [0] * self.pardim", "newraises = [1] * self.pardim", ['raise_order_dir']),
+ 'ro_guard':           ('obj', "b.continuity(b.knots[0]) < b.order or b.periodic > -1 for b in self.bases", "b.continuity(b.knots[0]) < b.order or b.periodic > 0 for b in self.bases", ['raise_order', 'raise_order_dir']),
+ 'ro_pinned_tail':     ('obj', "        for i in range(0,d_p):\n", "        for i in range(1,d_p):\n", ['raise_order', 'raise_order_dir']),
+ 'ro_kwonly_default':  ('obj', "def raise_order(self, *raises, direction=None):", "def raise_order(self, *raises, direction=0):", ['raise_order', 'raise_order_dir']),
+ 'setorder_test':      ('obj', "if not all(new >= old for new, old in zip(order, self.order())):", "if not all(new > old for new, old in zip(order, self.order())):", ['set_order']),
+ 'setorder_diff':      ('obj', "diff = [new - old for new, old in zip(order, self.order())]", "diff = [old - new for new, old in zip(order, self.order())]", ['set_order']),
+ 'lo_zero_test':       ('obj', "if all(l == 0 for l in lowers):", "if all(l == 1 for l in lowers):", ['lower_order']),
+ 'lo_axis':            ('obj', "new_controlpts = np.tensordot(n, new_controlpts, axes=(1, self.pardim-1))", "new_controlpts = np.tensordot(n, new_controlpts, axes=(1, 0))", ['lower_order']),
+ 'lo_amount':          ('obj', "new_bases = [b.lower_order(l) for b, l in zip(self.bases, lowers)]", "new_bases = [b.lower_order(l + 1) for b, l in zip(self.bases, lowers)]", ['lower_order']),
+ 'rotmat_half_angle':  ('utils', "    a = np.cos(theta / 2)", "    a = np.cos(theta)", ['rotation_matrix']),
+ 'rotmat_sign':        ('utils', "b, c, d = -axis*np.sin(theta / 2)", "b, c, d = axis*np.sin(theta / 2)", ['rotation_matrix']),
+ 'rotate_promote':     ('obj', "if not (normal[0] == 0 and normal[1] == 0):", "if not (normal[0] == 0 and normal[2] == 0):", ['rotate']),
+ 'rotate_no_T':        ('obj', "                 ]).T  # we do right-multiplication", "                 ])  # we do right-multiplication", ['rotate']),
+ 'rotate_dim_test':    ('obj', "        if dim == 2:\n            R = np.array", "        if dim == 1:\n            R = np.array", ['rotate']),
+ 'mirror_factor':      ('obj', "reflection_matrix[0:dim, 0:dim] -= 2 * np.outer(normal, normal)", "reflection_matrix[0:dim, 0:dim] -= 1 * np.outer(normal, normal)", ['mirror']),
+ 'mirror_dim_test':    ('obj', "        if dim != 3:\n            raise RuntimeError('reflection", "        if dim != 2:\n            raise RuntimeError('reflection", ['mirror']),
+ 'mirror_normalise':   ('obj', "normal = normal / np.sqrt(np.dot(normal, normal))  # normalize it", "normal = normal / np.dot(normal, normal)  # normalize it", ['mirror']),
+ 'iadd_negates':       ('obj', "    def __iadd__(self, x):\n        self.translate(x)", "    def __iadd__(self, x):\n        self.translate(-np.array(x))", ['__iadd__']),
+ 'iadd_twice':         ('obj', "    def __iadd__(self, x):\n        self.translate(x)\n", "    def __iadd__(self, x):\n        self.translate(x)\n        self.translate(x)\n", ['__iadd__']),
+ 'isub_no_negation':   ('obj', "self.translate(-np.array(x))  # can't do -x", "self.translate(np.array(x))  # can't do -x", ['__isub__']),
+ 'isub_twice':         ('obj', "self.translate(-np.array(x))  # can't do -x if x is a list, so we rewrap it here\n", "self.translate(-np.array(x))  # can't do -x if x is a list, so we rewrap it here\n        self.translate(-np.array(x))\n", ['__isub__']),
+ 'imul_reciprocal':    ('obj', "    def __imul__(self, x):\n        self.scale(x)", "    def __imul__(self, x):\n        self.scale(1.0 / x)", ['__imul__']),
+ 'imul_twice':         ('obj', "    def __imul__(self, x):\n        self.scale(x)\n", "    def __imul__(self, x):\n        self.scale(x)\n        self.scale(x)\n", ['__imul__']),
+ 'itruediv_no_recip':  ('obj', "    def __itruediv__(self, x):\n        self.scale(1.0 / x)", "    def __itruediv__(self, x):\n        self.scale(x)", ['__itruediv__']),
+ 'itruediv_twice':     ('obj', "    def __itruediv__(self, x):\n        self.scale(1.0 / x)\n", "    def __itruediv__(self, x):\n        self.scale(1.0 / x)\n        self.scale(1.0 / x)\n", ['__itruediv__']),
+ 'add_subtracts':      ('obj', "    def __add__(self, x):\n        new_obj = copy.deepcopy(self)\n        new_obj += x", "    def __add__(self, x):\n        new_obj = copy.deepcopy(self)\n        new_obj -= x", ['__add__']),
+ 'add_returns_self':   ('obj', "        new_obj += x\n        return new_obj", "        new_obj += x\n        return self", ['__add__']),
+ 'radd_subtracts':     ('obj', "        return self + x", "        return self - x", ['__radd__']),
+ 'radd_identity':      ('obj', "        return self + x", "        return self", ['__radd__']),
+ 'sub_adds':           ('obj', "    def __sub__(self, x):\n        new_obj = copy.deepcopy(self)\n        new_obj -= x", "    def __sub__(self, x):\n        new_obj = copy.deepcopy(self)\n        new_obj += x", ['__sub__']),
+ 'sub_returns_self':   ('obj', "        new_obj -= x\n        return new_obj", "        new_obj -= x\n        return self", ['__sub__']),
+ 'mul_divides':        ('obj', "        new_obj *= x\n", "        new_obj /= x\n", ['__mul__']),
+ 'mul_returns_self':   ('obj', "        new_obj *= x\n        return new_obj", "        new_obj *= x\n        return self", ['__mul__']),
+ 'rmul_divides':       ('obj', "        return self * x", "        return self / x", ['__rmul__']),
+ 'rmul_identity':      ('obj', "        return self * x", "        return self", ['__rmul__']),
+ 'div_multiplies':     ('obj', "        new_obj /= x\n", "        new_obj *= x\n", ['__div__']),
+ 'div_returns_self':   ('obj', "        new_obj /= x\n        return new_obj", "        new_obj /= x\n        return self", ['__div__']),
+ 'section_unwrap':     ('obj', "unwrap_points = kwargs.get('unwrap_points', True)", "unwrap_points = kwargs.get('unwrap_points', False)", ['section']),
+ 'section_free_bases': ('obj', "bases = [b for b, p in zip(self.bases, section) if p is None]", "bases = [b for b, p in zip(self.bases, section) if p is not None]", ['section']),
+ 'corners_order':      ('obj', "self.section(*(args[::-1] if order == 'F' else args))", "self.section(*(args[::-1] if order == 'C' else args))", ['corners']),
+ 'corners_width':      ('obj', "result = np.zeros((2**self.pardim, self.dimension + int(self.rational)))", "result = np.zeros((2**self.pardim, self.dimension))", ['corners']),
+ 'check_section_pinned': ('utils', "    while len(args) < pardim:\n        args.append(None)", "    while len(args) < pardim:\n        args.append(0)", ['section', 'corners']),
+ 'sections_pinned':    ('utils', "for indices in product([0, -1], repeat=nfixed):", "for indices in product([-1, 0], repeat=nfixed):", ['corners']),
 }
 
 
